@@ -101,7 +101,11 @@ def execute(job):
     radii_spec = p.pop("radii", "covalent")
     if radii_spec == "custom":
         base = own_radii("covalent", numbers)
-        radii_arg = base * float(rng.uniform(0.9, 1.15)) + rng.uniform(-0.03, 0.03, len(numbers))
+        # per-atom radii that differ *within* an element (a per-species summary of them would be wrong)
+        radii_arg = base * float(rng.uniform(0.9, 1.15)) + rng.choice([0.0, 0.0, 0.2], len(numbers))
+        if extra.get("lifted"):
+            radii_arg = base.copy()
+            radii_arg[np.argsort(perm)[np.array(extra["lifted"])] if opt.get("rigid") else np.array(extra["lifted"])] += 0.2
     else:
         radii_arg = radii_spec
     thr = p.get("bond_threshold", 0.65)
@@ -117,7 +121,16 @@ def execute(job):
     seed = int(p.pop("seed", 7))
     with tracer.sbc_trace() as calls:
         try:
-            clusters = SBC().get_clusters(atoms, radii=radii_arg if isinstance(radii_arg, str) else radii_arg.copy(),
+            sbc_obj = SBC()
+            if opt.get("shared_history"):
+                # the clustering object was used before on the same structure with other radii / thresholds
+                other = "vdw_covalent" if radii_spec != "vdw_covalent" else "covalent"
+                try:
+                    sbc_obj.get_clusters(atoms, radii=other, seed=seed + 1, bond_threshold=thr + 0.35)
+                except Exception:
+                    pass
+                del calls[:]
+            clusters = sbc_obj.get_clusters(atoms, radii=radii_arg if isinstance(radii_arg, str) else radii_arg.copy(),
                                           seed=seed, **p)
             rec["error"] = None
         except Exception as e:  # judged by FailureOnlyValueError...
